@@ -285,6 +285,7 @@ Section NetEff.
     | ETick _ sy | ETickSF _ sy | ERestart sy => forall bs, sy = Some bs -> incl bs stream
     | EPart r p sg => Q (r, p, sg)
     | ETransition _ g' => okgrp g'
+    | ESynced _ bs => incl bs stream
     | _ => False
     end.
 
@@ -292,7 +293,7 @@ Section NetEff.
     (forall w, In w (emits_of o) -> Q w) -> post s s' o.
   Proof.
     intros H Hpre Hin Hq. pose proof Hpre as [Hc Hg].
-    destruct e as [d|d| |rho sync|rho sync|r p sg| |sync|target g']; simpl in H, Hin; try contradiction.
+    destruct e as [d|d| |rho sync|rho sync|r p sg| |sync|target g'|upto bs]; simpl in H, Hin; try contradiction.
     - apply fire_due_eff; assumption.
     - destruct (s_running s); cbn [negb] in H; [|inversion H; subst; apply post_nop; auto].
       destruct (Node.emit_on _ _ _ _ _ _ _ _) as [s1 o1] eqn:E1.
@@ -341,6 +342,9 @@ Section NetEff.
     - inversion H; subst. apply post_nop; [exact Hc| |reflexivity].
       destruct Hg as [G1 _]. split; cbn [s_grp s_pending]; [exact G1|].
       intros tg0 g0 E. inversion E; subst. exact Hin.
+    - destruct (s_running s); cbn [negb] in H; [|inversion H; subst; apply post_nop; auto].
+      eapply try_node_eff; [|exact H|exact Hpre].
+      intros x Hx. apply filter_In in Hx as [Hx _]. exact (Hin x Hx).
   Qed.
 End NetEff.
 
@@ -422,6 +426,7 @@ Section NetSys.
     | ERestart sy => stream_ok y sy
     | EPart r p sg => In (r, p, sg) (y_pool y)
     | ETransition _ g' => okgrp thr_of g'       (* a completed resharing hands the node its new group *)
+    | ESynced _ bs => stream_ok y (Some bs)     (* a sync the aggregator asked for is answered *)
     | _ => False
     end.
 
@@ -503,14 +508,15 @@ Section NetSys.
 
   Definition ev_stream (e : event) : list beacon :=
     match e with
-    | ETick _ (Some bs) | ETickSF _ (Some bs) | ERestart (Some bs) => bs
+    | ETick _ (Some bs) | ETickSF _ (Some bs) | ERestart (Some bs) | ESynced _ bs => bs
     | _ => []
     end.
 
   Lemma ev_stream_known y e : ev_ok y e -> forall b, In b (ev_stream e) ->
     vrec (b_round b) (b_prev b) (b_sig b) = true -> exists b', In b' (y_known y) /\ b_round b' = b_round b.
   Proof.
-    destruct e as [d|d| |rho [bs|]|rho [bs|]|r p sg| |[bs|]|tg g']; simpl; try (intros _ b []).
+    destruct e as [d|d| |rho [bs|]|rho [bs|]|r p sg| |[bs|]|tg g'|upto bs]; simpl; try (intros _ b []).
+    - intros H b Hb Hv. exact (H bs eq_refl b Hb Hv).
     - intros H b Hb Hv. exact (H bs eq_refl b Hb Hv).
     - intros H b Hb Hv. exact (H bs eq_refl b Hb Hv).
     - intros H b Hb Hv. exact (H bs eq_refl b Hb Hv).
@@ -519,8 +525,9 @@ Section NetSys.
   Lemma ev_input_ok y (Q : wire -> Prop) e : ev_ok y e -> (forall w, In w (y_pool y) -> Q w) ->
     input_ok Q thr_of (ev_stream e) e.
   Proof.
-    destruct e as [d|d| |rho [bs|]|rho [bs|]|r p sg| |[bs|]|tg g']; simpl; try tauto;
-      try (intros _ _ bs' E; inversion E; subst; apply incl_refl); try (intros _ _ bs' E; discriminate).
+    destruct e as [d|d| |rho [bs|]|rho [bs|]|r p sg| |[bs|]|tg g'|upto bs]; simpl; try tauto;
+      try (intros _ _ bs' E; inversion E; subst; apply incl_refl); try (intros _ _ bs' E; discriminate);
+      try (intros _ _; apply incl_refl).
     intros H Hq. apply Hq; exact H.
   Qed.
 
@@ -639,11 +646,12 @@ Section NetSys.
       { intros sy Hs bs E b Hb Hv. subst sy. rewrite forallb_forall in Hs. specialize (Hs b Hb).
         rewrite Hv in Hs. simpl in Hs. apply existsb_exists in Hs as [b' [Hb' Er]]. apply Z.eqb_eq in Er.
         exists b'. split; assumption. }
-      destruct e as [d|d| |rho sy|rho sy|r p sg| |sy|tg g']; simpl; try discriminate; try exact I.
+      destruct e as [d|d| |rho sy|rho sy|r p sg| |sy|tg g'|upto bs]; simpl; try discriminate; try exact I.
       + apply Hserved; exact H.
       + apply Hserved; exact H.
       + apply Hserved; exact H.
       + unfold okgrp. apply Z.eqb_eq; exact H.
+      + apply (Hserved (Some bs)); exact H.
     - apply existsb_exists in H as [x [Hx E]]. apply wire_eqb_eq in E. subst; exact Hx.
     - intros P Hv Hf. apply orb_true_iff in H as [H|H].
       + rewrite forallb_forall in H. specialize (H P (vpart_polys _ _ _ _ Hv)).
